@@ -295,6 +295,36 @@ theorem scan_enforced (v a : Str) (id : Nat) (img : Image) (s : ImgState) (hv : 
     simp only [Except.bind] at hv
     simp only [bind, Except.bind, hv, Bool.true_and]
 
+theorem runStep_err_class (v a : Str) (id : Nat) (img : Image) (st : AddStep) (s : ImgState) (e : Err)
+    (hk : st ≠ .unknown) (hv : Enforces s.version) (h : (runStep v a id img st s).2 = .error e) : e = .valueError := by
+  cases st with
+  | unknown => exact absurd rfl hk
+  | insert => simp [runStep] at h
+  | archTable => simp only [runStep] at h; split at h <;> simp_all
+  | srcRefusal => simp only [runStep] at h; split at h <;> simp_all
+  | uniqScan => rw [scan_enforced v a id img s hv] at h; split at h <;> simp_all
+
+/-- under an enforcing (hence valid) header version every exception of a known statement list is ValueError -/
+theorem runSteps_err_class (v a : Str) (id : Nat) (img : Image) (script : List AddStep) (s : ImgState) (e : Err)
+    (hk : AddStep.unknown ∉ script) (hv : Enforces s.version)
+    (h : (runSteps v a id img script s).2 = .error e) : e = .valueError := by
+  induction script generalizing s with
+  | nil => simp [runSteps] at h
+  | cons st rest ih =>
+    unfold runSteps at h
+    have hst : st ≠ .unknown := fun e => hk (e ▸ List.mem_cons_self)
+    have hcls := runStep_err_class v a id img st s
+    have hver : (runStep v a id img st s).1.version = s.version := by cases st <;> rfl
+    cases hr : runStep v a id img st s with
+    | mk s' r =>
+      rw [hr] at h hcls hver
+      cases r with
+      | error e' => simp only at h; injection h with h; subst h; exact hcls e' hst hv rfl
+      | ok u =>
+        cases u
+        simp only at h hver
+        exact ih s' (fun hm => hk (List.mem_cons_of_mem _ hm)) (hver ▸ hv) h
+
 /-- **scan before insertion**: whatever the statement list, if every insertion comes after a scan then an
 enforcing version keeps the manifest unique -/
 theorem uniq_of_scanGuard (v a : Str) (id : Nat) (img : Image) (script : List AddStep) (s : ImgState) (seen : Bool)
